@@ -403,6 +403,50 @@ def body_shape(repo: Repo, c: ClassInfo, f: FuncInfo) -> Tuple:
     return ("unknown", "; ".join(txts))
 
 
+# representative argument per fixed-width descriptor: every byte distinct, so width, order and sign are all visible
+_FIXED_REPR = {"uint1": 0xA1, "uint2": 0xA1B2, "uint4": 0xA1B2C3D4, "int4": -0x5E4D3C2C, "uint8": 0xA1B2C3D4E5F60718}
+
+
+def base_encoder_shape(repo: Repo, oc, f: FuncInfo) -> Tuple:
+    """Opcode.encode_body (the encoder every class without its own inherits), interpreted for this class: with the
+    class's own pickletools descriptor in `self.info` and a representative argument."""
+    info = oc.info
+    argname = info.arg.name if info.arg else None
+    if info.arg is None:
+        inf = Record("OpcodeInfo", {"arg": None, "name": info.name, "proto": info.proto, "code": info.code})
+        reps = [None]
+    else:
+        inf = Record("OpcodeInfo", {"arg": Record("ArgumentDescriptor", {"n": info.arg.n, "name": info.arg.name}), "name": info.name, "proto": info.proto, "code": info.code})
+        reps = [_FIXED_REPR[argname]] if argname in _FIXED_REPR else [7, "text", b"bytes"]
+    outs = []
+    for rv in reps:
+        selfr = Record(oc.cls.name, {"info": inf, "arg": rv, "__class__": Record("type", {"__name__": oc.cls.name})})
+        try:
+            out = Evaluator({"self": selfr}).run_body(f.node.body)
+        except PyRaise as pe:
+            outs.append(("refuses", f"Opcode.encode_body raises {pe.name} for a {type(rv).__name__ if rv is not None else 'missing'} argument"))
+            continue
+        except Unsupported as e:
+            return ("unknown", f"Opcode.encode_body for {oc.cls.name}: {e}")
+        if not isinstance(out, bytes):
+            return ("unknown", f"Opcode.encode_body evaluated to a {type(out).__name__}")
+        if info.arg is None:
+            outs.append(("empty",) if out == b"" else ("wrong-bytes", f"writes {out!r} for an opcode without argument"))
+        elif argname in _FIXED_REPR:
+            want = rv.to_bytes(info.arg.n, "little", signed=(argname == "int4"))
+            outs.append(("fixed", info.arg.n, argname == "int4") if out == want else ("wrong-bytes", f"{oc.cls.name}({rv:#x}) is written as {out.hex()} where `{argname}` reads {want.hex()} (little-endian, {info.arg.n} byte(s))"))
+        else:
+            outs.append(("wrong-bytes", f"a generic encoder writes {out!r} for the `{argname}` descriptor"))
+    kinds = {o[0] for o in outs}
+    if kinds == {"refuses"}:
+        return ("base",)
+    bad = [o for o in outs if o[0] == "wrong-bytes"]
+    if bad:
+        return bad[0]
+    acc = [o for o in outs if o[0] != "refuses"]
+    return acc[0] if acc else ("base",)
+
+
 def check_wire(repo: Repo, rep: Report):
     ops, _ = opcode_registry(repo)
     for oc in ops:
@@ -420,7 +464,12 @@ def check_wire(repo: Repo, rep: Report):
         if es[0] == "opcode+body":
             bs = body_shape(repo, c, encb)
             if bs[0] == "base":
+                bs = base_encoder_shape(repo, oc, encb)
+            if bs[0] == "base":
                 got = ("empty",) if arg is None else ("refuses", "inherits Opcode.encode_body with a non-empty argument (NotImplementedError)")
+            elif bs[0] == "wrong-bytes":
+                rep.bad("C15.wire-format", q, f"shape-mismatch:{oc.opname}", f"{c.name} inherits Opcode.encode_body, which for this class: {bs[1]}: the bytes do not disassemble back to this opcode with this argument", encb.file, encb.line, what=f"{oc.opname}: {bs[1]}")
+                continue
             else:
                 got = bs
         elif es[0] == "lenprefix-wrapper":
